@@ -129,7 +129,7 @@ UNIVERSAL = [
 ]  # fmt: skip
 
 SPECIFIC = {
-    "str": ["x y", "a\nb", "1e+3", "._1", "~", "NO", "{}", "[]", "%", "@", "`", "!t", "&a", "*a", "|", ">", "?", "- a", "k:", ": v", "\t", "<<", "=", "0o7", "0b1", "+.inf", "1:2:3", "1_0.5_1", "2001-01-01T00:00:00Z", "2001-1-1 1:02:03.5 -5", "\"", "'", "\\"],
+    "str": ["x y", "a\nb", "1e+3", "._1", "~", "NO", "{}", "[]", "%", "@", "`", "!t", "&a", "*a", "|", ">", "?", "- a", "k:", ": v", "\t", "<<", "=", "0o7", "0b1", "+.inf", "1:2:3", "1_0.5_1", "2001-01-01T00:00:00Z", "2001-1-1 1:02:03.5 -5", "\"", "'", "\\", "\U0001f680 \U00010000"],
     "int": ["-0", "0x10", "0o7", "0b11", "1_0", "+1", "007", "1:00", -10**20],
     "float": [-0.0, 5e-324, 1.7976931348623157e308, 0.1, 1 / 3, 1e15, 1e17, 123456789.123456789, "1e+3", ".5", "5.", "1_0.5", "+.inf", "-.INF", ".NaN", "1:30.5", "0x10"],
     "bool": ["false", "True", "FALSE", "no", "off", "n"],
@@ -153,7 +153,7 @@ SPECIFIC = {
     "range": ["range(3)", "range(1, 3)", "range(0, 10, 2)", "range(0)", "range(5, 1, -1)", "range(0, 1)"],
     "Any": [[], {}, [1, "1", 1.0, True, None], {"a": None}, {"a": {"b": [1.0, "x", "1e3"]}}, [None], {"1": 1}, {"null": "null"},
             [[1], [2.5]], {"k": INF}, [NAN], {"class_path": "x"}, "a: [1, 2]", "- 1\n- 2", "{a: 1e3}", "[.inf]", 1e300,
-            "{1: a}", "{null: 1, true: 2}",
+            "{1: a}", "{null: 1, true: 2}", {"\U0001f680": ["\U0010ffff", "é"]},
             # importable class specs held by an Any value (serialised through the class's own parser)
             {"class_path": LIB + ".KwOnly", "dict_kwargs": {"level": 3, "s": "1e3"}},
             {"class_path": LIB + ".SubA", "init_args": {"s": "null", "opt": None}},
@@ -169,7 +169,7 @@ P = {
     "E": ["A", "B"],
 }  # fmt: skip
 
-KEYS = ["k", "1", "1e3", "null", "true", "a.b", " ", "", "1.5", "~", "no", "[k]", "k: v", "é", "._1", "#", "2001-01-01"]
+KEYS = ["k", "1", "1e3", "null", "true", "a.b", " ", "", "1.5", "~", "no", "[k]", "k: v", "é", "._1", "#", "2001-01-01", "\U0001f680"]
 DEFAULTS_LEAF = {
     "str": ["d", "1e3", ""], "int": [1, 0], "float": [1.0, 0.5, INF], "bool": [True, False], "E": ["A"], "EY": ["null"],
     "LitA": ["a", None], "LitB": ["1", 2], "PositiveInt": [1], "ClosedUnitInterval": [0.5, 1], "Gt1Le5": [2.0],
@@ -278,6 +278,12 @@ CLASS_VALUES = [
     {"class_path": "KwNamed", "init_args": {"size": None}},
     {"class_path": "KwNamed", "init_args": {"size": None}, "dict_kwargs": {"level": 3.0, "x y": "a: 1"}},
     {"class_path": LIB + ".KwNamed", "init_args": {"size": 2}, "dict_kwargs": {"other": None}},
+    # every class that shares the init arg `a` with the others, with `a` given explicitly as that class's OWN default:
+    # under a default of another class whose `a` is not its default, the value differs from what the parser makes of
+    # the bare class_path (init args that the new class accepts carry over from the default)
+    {"class_path": LIB + ".Base", "init_args": {"a": 1}},
+    {"class_path": "SubA", "init_args": {"a": 2}},
+    {"class_path": "SubB", "init_args": {"a": 1}},
 ]  # fmt: skip
 CLASS_DEFAULTS = [UNSET, {"class_path": LIB + ".SubA", "init_args": {"a": 5}}, {"class_path": LIB + ".SubB"}, None,
                   {"class_path": LIB + ".KwNamed", "dict_kwargs": {"level": 1}}]  # fmt: skip
@@ -515,7 +521,11 @@ def _typed_case(case, cwd):
     raised = set()  # dump channels that deviated for this case (a failing --print_config with the same flags is the same root cause)
     reported = set()  # (format, class) already reported by a more basic channel of this case: one root cause, one signature
 
+    union_hit = []  # the plain dump of this case already showed the Union-order root cause: derived channels repeat it
+
     def record(channel, label, cls, detail, fmts):
+        if union_hit:
+            return
         res["devs"].append((f"{channel}:{label}:{cls}", detail))
         for f in fmts:
             reported.add((f, cls))
@@ -525,6 +535,21 @@ def _typed_case(case, cwd):
 
     for entry, c0, raw in configs:
         p = mk()
+
+        def union_order_root_cause(kw, modulo_none):
+            """A deviating dump of a Union-typed argument: True iff the SAME configuration, serialised with the same
+            flags by a parser whose Union lists the members in the reverse order, re-parses (by that parser) to the
+            original - i.e. the serialiser of the earlier member took a value that belongs to the later member."""
+            if shape != "flat" or not (isinstance(tspec, list) and tspec[0] == "Union" and len(tspec) == 3):
+                return False
+            try:
+                q = build_parser(shape, ["Union", tspec[2], tspec[1]], copy.deepcopy(dobj) if isinstance(dobj, (list, dict, set)) else dobj, has_default, mode)
+            except Exception:
+                return False
+            oq = outcome(q.dump, c0, **kw)
+            if oq["kind"] != "ok":
+                return False
+            return judge_reparse(q.parse_string, oq["value"], c0, drop, modulo_none)[0] is None
 
         def run_dump_channel(channel, fmts, modulo_none=False, **dump_kw):
             """-> {fmt: cls}, {fmt: detail} for the deviating formats not yet explained by a more basic channel."""
@@ -538,6 +563,10 @@ def _typed_case(case, cwd):
                 od = outcome(p.dump, c0, **kw)
                 res["ops"] += 1
                 if od["kind"] != "ok":
+                    if union_order_root_cause(kw, modulo_none):
+                        union_hit.append(channel)
+                        res["devs"].append((SIG_UNION_ORDER + ":dump-raises", f"[{channel} {fmt}] config {short(c0)} ({entry}): dump raises {od.get('type', '')}: {od.get('message', '')}"))
+                        continue
                     results[fmt] = "dump-raises:" + od.get("type", od["kind"]).rsplit(".", 1)[-1]
                     details[fmt] = f"config {short(c0)} ({entry}): {od.get('message', '')}"
                     continue
@@ -546,6 +575,10 @@ def _typed_case(case, cwd):
                 res["rt"] += 1
                 res["ops"] += 1
                 chan(channel)
+                if cls and union_order_root_cause(kw, modulo_none):
+                    union_hit.append(channel)
+                    res["devs"].append((SIG_UNION_ORDER + ":value-respelt", f"[{channel} {fmt}] config {short(c0)} ({entry}) text {text!r}: {detail}"))
+                    continue
                 if cls and fmt in JSON_FORMATS and mode == "yaml" and json_nonfinite_root_cause(p.parse_string, text, c0, drop, modulo_none):
                     res["devs"].append((SIG_JSON_NONFINITE, f"[{channel} {fmt}] config {short(c0)} text {text!r}: {detail}"))
                     continue
@@ -557,7 +590,9 @@ def _typed_case(case, cwd):
                     continue
                 if cls == "reparse-rejected" and shape in SUB_SHAPES and _unnamed_subcommand_root_cause(p.parse_string, text, c0, drop, modulo_none):
                     cls = CLS_UNNAMED_SUBCOMMAND
-                if cls and "skip_default" in channel and not cls.startswith("reparse-") and _dict_kwargs_root_cause(c0, c1, detail):
+                if cls and "skip_default" in channel and not cls.startswith("reparse-") and _carry_over_root_cause(p, c0, c1, detail, drop):
+                    cls = CLS_CARRY_OVER
+                elif cls and "skip_default" in channel and not cls.startswith("reparse-") and _dict_kwargs_root_cause(c0, c1, detail):
                     cls = "class-spec:dict_kwargs-not-compared-with-default"
                 elif cls and "skip_default" in channel and not cls.startswith("reparse-") and _dict_items_root_cause(p, c0, detail, drop):
                     cls = "dict-valued-argument:items-compared-with-default-items"
@@ -805,7 +840,43 @@ def _unnamed_subcommand_root_cause(parse_string, text, c0, drop, modulo_none=Fal
     return cls is None
 
 
-KEEP_CLASSES = {CLS_UNNAMED_SUBCOMMAND, "numeric-type-changed-value-equal", "class_path-differs", DECIMAL_VIA_FLOAT,
+SIG_UNION_ORDER = "dump:all:union:value-of-a-later-member-taken-by-the-serialiser-of-an-earlier-member"
+CLS_CARRY_OVER = "class-spec:init-arg-equal-to-own-class-default-left-out:default-of-other-class-carries-over"
+
+
+def _carry_over_root_cause(p, c0, c1, detail, drop):
+    """skip_default channel: the first difference is an init arg of a class spec whose class differs from the class
+    of the argument's default, and the re-parsed init arg is the one of the DEFAULT's spec (skip_default left the init
+    arg out because it equals the own default of the value's class, but on parsing a bare class_path the init args of
+    the argument's default that the new class accepts carry over)."""
+    import re
+
+    from mc.util import outcome, teq
+
+    m = re.match(r"at (\$[^:]*):", detail)
+    if not m or c1 is None:
+        return False
+    o = outcome(p.get_defaults)
+    if o["kind"] != "ok":
+        return False
+    a, b, d = c0, c1, strip_cfg(o["value"], drop)
+    segs = re.findall(r"\.([^.\[]+)", m.group(1)[1:])
+    if "[" in m.group(1):
+        return False
+    for i, key in enumerate(segs):
+        if not all(isinstance(x, argparse.Namespace) and key in vars(x) for x in (a, b, d)):
+            return False
+        if key == "init_args" and "class_path" in vars(a) and i == len(segs) - 2:
+            name = segs[-1]
+            da = vars(d).get("init_args")
+            return (not teq(vars(a)["class_path"], vars(d).get("class_path")) and teq(vars(a)["class_path"], vars(b).get("class_path"))
+                    and isinstance(da, argparse.Namespace) and name in vars(da) and name in vars(vars(b)["init_args"])
+                    and teq(vars(vars(b)["init_args"])[name], vars(da)[name]))
+        a, b, d = vars(a)[key], vars(b)[key], vars(d)[key]
+    return False
+
+
+KEEP_CLASSES = {CLS_UNNAMED_SUBCOMMAND, CLS_CARRY_OVER, "numeric-type-changed-value-equal", "class_path-differs", DECIMAL_VIA_FLOAT,
                 "dict-valued-argument:items-compared-with-default-items",
                 "class-spec:dict_kwargs-not-compared-with-default"}
 
@@ -968,6 +1039,10 @@ PC_THOROUGH = PC_ALL + ["skip_default,skip_null"]
 NUMERIC = {"int", "float", "bool"}
 
 
+SAME_KIND_PAIRS = [("E", "EY"), ("PositiveInt", "ClosedUnitInterval"), ("LitA", "LitB"), ("Path_fr", "Path_dc"), ("UUID", "timedelta")]
+SAME_KIND_EXTRA = ["A", "B", "null", "true", "on", "y", "a", "1", 1, 2, 0.5, None, "x"]
+
+
 def typed_cases(tier):
     quick = tier == "quick"
     cases = []
@@ -1013,6 +1088,14 @@ def typed_cases(tier):
         if not quick:
             for v in pool(t):
                 add("flat", t, UNSET, v, "json")
+    # Unions of two members of the SAME kind (two enums, two restricted numbers, two literals, two path types, two
+    # registered types), both orders: the serialiser of the first member must leave the values of the second to it
+    for a, b in SAME_KIND_PAIRS:
+        for t in (["Union", a, b], ["Union", b, a]):
+            vals = dedupe(SPECIFIC.get(a, []) + DEFAULTS_LEAF[a] + SPECIFIC.get(b, []) + DEFAULTS_LEAF[b] + SAME_KIND_EXTRA)
+            for d in [UNSET, DEFAULTS_LEAF[t[2]][0]] + ([] if quick else [DEFAULTS_LEAF[t[1]][0]]):  # quick: the default belongs to the later member
+                for v in vals:
+                    add("flat", t, d, v, pc=(["", "skip_default"] if d == UNSET else None) if quick else pc_full, yc=not quick)
     if not quick:
         # G_2 over further leaves inside Optional/List/DictStr
         for leaf in [x for x in LEAVES if x not in CORE and x != "Any"]:
